@@ -1,7 +1,7 @@
 //! The `stream` family: a receiver that appends chunks to a buffer and re-parses it through every
 //! entry point after each read. Also the input generators for it (inputs only, no expectations).
 
-use crate::proj::{all_entry_points, huge_entry_points, inplace_entry_points};
+use crate::proj::{all_entry_points, huge_entry_points, inplace_entry_points, moved_observations};
 use crate::util::{flat, rl, unflat, unrl, Rng, KNOWN_PORTS, KNOWN_V4, KNOWN_V6};
 use serde_json::{json, Value};
 use std::io::Write;
@@ -119,6 +119,13 @@ pub fn run_session(s: &Session, out: &mut dyn Write) -> usize {
         } else {
             all_entry_points(&buf, true)
         };
+        if !s.inplace {
+            // the same bytes at another memory position, where that changes what the crate reports
+            for (k, o) in moved_observations(&buf) {
+                writeln!(out, "{}", json!({"sid": s.sid, "op": "Moved", "c": rl(chunk), "shift": k, "obs": o})).unwrap();
+                n += 1;
+            }
+        }
         writeln!(out, "{}", json!({"sid": s.sid, "op": "Recv", "c": rl(chunk), "obs": obs})).unwrap();
         n += 1;
         last = obs;
@@ -140,6 +147,11 @@ pub fn run_session(s: &Session, out: &mut dyn Write) -> usize {
                 }
                 buf.drain(..len.min(buf.len()));
                 let obs = all_entry_points(&buf, true);
+                // (a receiver that slices past the header instead parses the rest where it lies)
+                for (k, o) in moved_observations(&buf) {
+                    writeln!(out, "{}", json!({"sid": s.sid, "op": "MovedRest", "n": len, "shift": k, "obs": o})).unwrap();
+                    n += 1;
+                }
                 writeln!(out, "{}", json!({"sid": s.sid, "op": "Consume", "n": len, "obs": obs})).unwrap();
                 n += 1;
                 last = obs;
